@@ -95,7 +95,8 @@ Contract(
     ensures=_rs_post,
     loops={0: LoopSpec("for a in lst_of_sets", _rs_outer), 1: LoopSpec("for b in filtered", _rs_inner)},
     properties=["C03", "C04", "C05", "C11", "C15"],
-    fuel=10,
+    fuel=7,
+    fuel_post=10,
     axioms=RS_AXIOMS + [SETOF_ENUM],
     note="result = the inclusion-minimal sets of the input, each once, as duplicate-free lists",
 )
